@@ -103,8 +103,11 @@ func NewHighSpatialID(u *UnitDividedSpatialID, hDiff, vDiff int64) *HighSpatialI
 
 	// 最適化元拡張空間ID配列
 	lowIDs := []string{u.ID()}
-	// 単位拡張空間ID集合
-	unitIDs := u.unitIDs
+	// 単位拡張空間ID集合 (引数の集合を後続のMergeで書き換えないよう複製する)
+	unitIDs := make(map[string]struct{}, len(u.unitIDs))
+	for k := range u.unitIDs {
+		unitIDs[k] = struct{}{}
+	}
 
 	return &HighSpatialID{
 		ExtendedSpatialID: highID,
